@@ -279,3 +279,32 @@ Fixpoint lrun (tb : list tbl) (ths : list lthread) (sched : list nat) : list lth
 
 Definition linit (starts : list nat) : list lthread := map (fun s => mkLT s 0 false) starts.
 Definition lall_returned (ths : list lthread) : bool := forallb lret ths.
+
+(* ---- threads that take a given sequence of table locks and keep what they took until they are through
+   (a look-up: child, parent, grandparent ...; manager/utils.rs::class_level_table before d98ed2d: the PARENT table and,
+   still holding it, the child) ---- *)
+Record qthread := mkQ { qtodo : list nat; qheld : list nat }.
+Definition qall_held (ths : list qthread) : list nat := flat_map qheld ths.
+
+Definition qstep (ths : list qthread) (i : nat) : option (list qthread) :=
+  match nth_error ths i with
+  | None => None
+  | Some th =>
+      match qtodo th with
+      | n :: r => if existsb (Nat.eqb n) (qall_held ths) then None
+                  else Some (upd i (fun _ => mkQ r (n :: qheld th)) ths)
+      | [] => match qheld th with
+              | [] => None
+              | _ => Some (upd i (fun _ => mkQ [] []) ths)
+              end
+      end
+  end.
+
+Definition qdone (th : qthread) : bool :=
+  match qtodo th, qheld th with [], [] => true | _, _ => false end.
+
+Fixpoint qrun (ths : list qthread) (sched : list nat) : list qthread :=
+  match sched with
+  | [] => ths
+  | i :: r => match qstep ths i with Some ths' => qrun ths' r | None => qrun ths r end
+  end.
